@@ -1325,10 +1325,11 @@ def run_forall_case(p):
         # (a) two for_all over the SAME universal variable in one conjunction; (b) a for_all followed by a condition in which
         # the same variable is an ordinary (existential) variable; (c) the universal is an EXPRESSION (an attribute of a
         # variable) whose values include falsy ones
-        kind = rng.choice(['two_foralls', 'then_existential', 'expression', 'expression', 'flatten_free', 'flatten_free'])
+        kind = rng.choice(['two_foralls', 'then_existential', 'expression', 'expression', 'flatten_free', 'flatten_free', 'unselected_free', 'unselected_free'])
         du = O.make_domain(rng, rng.choice([1, 2, 3]), falsy=(kind == 'expression'))
         c1 = ('cmp', rng.choice(['le', 'ge', 'ne', 'lt', 'gt']), ('attr', 0, 'size'), ('attr', 1, 'size'))
         c2 = ('cmp', rng.choice(['le', 'ge', 'ne', 'lt', 'gt']), ('index', 0, 'k'), ('attr', 1, 'size'))
+        dy = O.make_domain(random.Random(p['seed'] * 13 + 3), 4)      # (made outside the block: inside it Item(...) is symbolic)
         try:
             with symbolic_mode():
                 x = let(type_=O.Item, domain=dx)
@@ -1339,6 +1340,20 @@ def run_forall_case(p):
                 elif kind == 'then_existential':
                     conds = [for_all(u, O.build(c1, [x, u])), O.build(c2, [x, u])]
                     ref = lambda a: all(O.holds(c1, {0: a, 1: b}) for b in du) and any(O.holds(c2, {0: a, 1: b}) for b in du)  # noqa
+                elif kind == 'unselected_free':
+                    # the condition of the for_all is about a variable y that is NOT selected (it is joined to the selected x):
+                    # x comes out iff SOME y joined to it satisfies the condition for every u - also when that condition is a
+                    # disjunction (results that differ only in y are not duplicates of each other)
+                    from entity_query_language import or_
+                    y = let(type_=O.Item, domain=dy)
+                    opa, opb = rng.choice(['gt', 'ge', 'ne']), rng.choice(['gt', 'lt', 'eq'])
+                    inner = or_(O.OPS[opa](y.size, u.size), O.OPS[opb](y.props['k'], u.size)) if rng.random() < 0.7 \
+                        else O.OPS[opa](y.size, u.size)
+                    disj = inner is not None and rng.random() >= 0     # (kept for the description of a failure)
+                    is_or = hasattr(inner, 'left') and type(inner).__name__ in ('ElseIf', 'Union')
+                    conds = [y.name == x.name, for_all(u, inner)]
+                    ref = lambda a: any(b.name == a.name and all((O.OPS[opa](b.size, w.size) or (is_or and O.OPS[opb](b.props['k'], w.size)))  # noqa
+                                                                    for w in du) for b in dy)
                 elif kind == 'flatten_free':
                     # the free part of the condition is a FLATTENED element of x: one and the same element has to satisfy the
                     # condition for every u (an x comes out once per such element, compared as a set of x)
